@@ -174,8 +174,14 @@ pub fn write_simple(g: &Simple, bbox: BBox, rng: &mut Rng, enc: &EncChoice) -> V
 }
 
 pub fn write_composite(g: &Composite, bbox: BBox) -> Vec<u8> {
+    write_composite_nc(g, bbox, -1)
+}
+
+/// As `write_composite`, with an explicit numberOfContours: any negative value marks a composite
+/// glyph ("-1 should be used"), readers must not insist on exactly -1.
+pub fn write_composite_nc(g: &Composite, bbox: BBox, number_of_contours: i16) -> Vec<u8> {
     let mut w = W::new();
-    w.i16(-1).i16(bbox.x_min).i16(bbox.y_min).i16(bbox.x_max).i16(bbox.y_max);
+    w.i16(if number_of_contours < 0 { number_of_contours } else { -1 }).i16(bbox.x_min).i16(bbox.y_min).i16(bbox.x_max).i16(bbox.y_max);
     let n = g.components.len();
     for (i, c) in g.components.iter().enumerate() {
         let mut flags = c.extra_flags & (0x4 | 0x200 | 0x400 | 0x800 | 0x1000);
@@ -196,9 +202,16 @@ pub fn write_composite(g: &Composite, bbox: BBox) -> Vec<u8> {
             Scale::XY(..) => flags |= 0x40,
             Scale::Matrix(..) => flags |= 0x80,
         }
+        // WE_HAVE_INSTRUCTIONS: by convention on the last component; a component whose extra_flags
+        // carry 0x100 gets it explicitly (then the last one only if it asks for it too) - readers
+        // must look at every component (WOFF2 5.1 says "any component").
+        let explicit = !g.instructions.is_empty() && g.components.iter().any(|k| k.extra_flags & 0x100 != 0);
         if i + 1 < n {
             flags |= 0x20;
-        } else if !g.instructions.is_empty() {
+            if explicit {
+                flags |= c.extra_flags & 0x100;
+            }
+        } else if !g.instructions.is_empty() && (!explicit || c.extra_flags & 0x100 != 0) {
             flags |= 0x100;
         }
         w.u16(flags).u16(c.gid);
